@@ -21,6 +21,9 @@ package c13_test
 //	     applied indices filtered by DurableAppliedIndex (what multi-raft does:
 //	     raft.Config.Applied = DurableAppliedIndex), several times per log.
 //	D_k  A's Snapshot() at prefix k -> Restore into a fresh DB -> remainder.
+//	E    apply to D > k, (close/reopen,) Restore(A's snapshot at k) IN PLACE on the
+//	     same DB, then commands k+1..n again unfiltered (multiraft.newSlot after
+//	     log compaction); E' = Restore at the current applied index is a no-op.
 //	H    [hard-error command, next commands...] as one batch on an image of A:
 //	     error, nothing changed, and the following valid batch still applies.
 //
@@ -479,7 +482,7 @@ func c13FamilyFor(i int, rng *rand.Rand) (c13Family, string) {
 func TestVerifC13(t *testing.T) {
 	r := verifkit.Start(t, "C13", "main")
 	defer r.Finish()
-	r.SetRule("Each case = one PRNG slot-FSM command log (20..200 effective commands over 3 uids / 5 channels / 4 owned hash slots, every exported Encode*Command family; guards built from the observed committed state then perturbed; stale, conflicting, duplicate and re-delivered commands; index gaps) run as A (one by one), B (PRNG partitions), X (all partitions of a window on a process-kill image of A), C (close/reopen + overlapping re-delivery filtered by DurableAppliedIndex), D (snapshot at prefix k, Restore, remainder), H (hard-error command heading a batch). An evaluation is one ApplyBatch call with its checks. Non-trivial = (log, partition) with a batch where a command with a non-ok outcome (stale_meta, hash_slot_fenced, structured result) follows another command on the same hash slot inside the same batch; distinct by (command-type/outcome multiset of the log, partition shape). Families (the family name is part of every violation signature): core = all command families except the ones below; chmig = core + channel-migration task workflow commands; gc = chmig + terminal-task GC; subdel = core + subscriber mutations after a DeleteChannel of the same channel; cleanup = core + cleanup_migration_outbox commands that delete the hash-slot migration state.")
+	r.SetRule("Each case = one PRNG slot-FSM command log (20..200 effective commands over 3 uids / 5 channels / 4 owned hash slots, every exported Encode*Command family; guards built from the observed committed state then perturbed; stale, conflicting, duplicate and re-delivered commands; index gaps) run as A (one by one), B (PRNG partitions), X (all partitions of a window on a process-kill image of A), C (close/reopen + overlapping re-delivery filtered by DurableAppliedIndex), D (snapshot at prefix k, Restore into a fresh DB, remainder), E (apply past k, optionally reopen, Restore the prefix-k snapshot in place, suffix again unfiltered; then Restore at the current index as a no-op), H (hard-error command heading a batch). An evaluation is one ApplyBatch call with its checks. Non-trivial = (log, partition) with a batch where a command with a non-ok outcome (stale_meta, hash_slot_fenced, structured result) follows another command on the same hash slot inside the same batch; distinct by (command-type/outcome multiset of the log, partition shape). Families (the family name is part of every violation signature): core = all command families except the ones below; chmig = core + channel-migration task workflow commands; gc = chmig + terminal-task GC; subdel = core + subscriber mutations after a DeleteChannel of the same channel; cleanup = core + cleanup_migration_outbox commands that delete the hash-slot migration state.")
 	r.Assume("Hash slot " + fmt.Sprint(c13IncomingHS) + " is registered as incoming-delta (UpdateIncomingDeltaHashSlots) and, in half of the logs, hash slot " + fmt.Sprint(c13OutgoingHS) + " has an outgoing delta target (UpdateOutgoingDeltaTargets); the same routing facts are given to every variant. ApplyDelta only targets owned or incoming hash slots.")
 	r.Assume("Commands whose one-by-one application returns an error from ApplyBatch (fatal to the slot in multi-raft) are outside the equivalence claim; they are only checked for 'error => nothing changed'.")
 
@@ -772,6 +775,111 @@ func c13RunCase(r *c13Run, i int, winMax int) {
 			}
 			env.close()
 			note(hot, fmt.Sprintf("restore@%d:", k)+c13Shape(sizes))
+		}
+
+		// ---- E: Restore IN PLACE over newer state, then the suffix again ---------
+		// What multiraft.newSlot does after a restart that follows log compaction:
+		// with a raft snapshot at index S it starts raft at Applied=S (the state
+		// machine's DurableAppliedIndex is NOT consulted in that branch), calls
+		// Restore(snapshot S) on the state machine whose DB already holds the
+		// effects of entries up to D >= S, and raft then re-delivers S+1.. without
+		// any filter. Restore must therefore rewind the metadata (and the applied
+		// watermark, markApplied refuses a watermark above the slot's) to S.
+		for ei, k := range ks {
+			data, have := ref.snaps[k]
+			if !have || k >= n {
+				continue
+			}
+			env, err := c13NewEnv(vfs.NewMem(), fam)
+			if err != nil {
+				r.Inconclusive("E env: " + err.Error())
+				break
+			}
+			dpos := k + 1 + rng.IntN(n-k) // entries [0,dpos) applied before the restart, dpos > k
+			ok, hot := true, false
+			lo := 0
+			var shape []int
+			for _, s := range c13Partition(rng, dpos) {
+				var in bool
+				if ok, in = c13CheckBatch(r, "E"+suffix, ref, env, lo, lo+s); !ok {
+					break
+				}
+				hot = hot || in
+				shape = append(shape, s)
+				lo += s
+			}
+			reopened := ei%2 == 1
+			if ok && reopened {
+				if err := env.reopen(); err != nil {
+					r.Violation("reopen-fails:E", err.Error())
+					ok = false
+				}
+			}
+			if ok {
+				at := ref.entries[k-1]
+				var rerr error
+				if r.Guard("Restore-in-place", k, func() {
+					rerr = env.sm.Restore(c13Ctx, multiraft.Snapshot{Index: at.Index, Term: at.Term, Data: append([]byte(nil), data...)})
+				}) {
+					ok = false
+				} else {
+					r.Eval(1)
+					if reopened {
+						r.Count("restores_in_place.after_reopen", 1)
+					} else {
+						r.Count("restores_in_place.same_process", 1)
+					}
+					r.Max("restores_in_place.max_entries_rewound", dpos-k)
+					h, _ := env.snapHash()
+					d, _ := env.durable()
+					switch {
+					case rerr != nil:
+						r.Violation("restore-in-place-fails"+suffix, map[string]any{"case": i, "k": k, "applied_before": dpos, "err": rerr.Error()})
+						ok = false
+					case h != ref.hash[k-1] || d != at.Index:
+						r.Violation("restore-in-place-does-not-rewind"+suffix, map[string]any{"case": i, "k": k, "entries_applied_before_restore": dpos, "reopened": reopened, "durable_after_restore": d, "snapshot_index": at.Index, "state_equals_snapshot": h == ref.hash[k-1], "state_equals_pre_restore_state": h == ref.hash[dpos-1]})
+						ok = false
+					}
+				}
+			}
+			if ok {
+				// the suffix again, unfiltered, in another grouping
+				lo = k
+				for _, s := range c13Partition(rng, n-k) {
+					var in bool
+					if ok, in = c13CheckBatch(r, "E"+suffix, ref, env, lo, lo+s); !ok {
+						break
+					}
+					hot = hot || in
+					shape = append(shape, -s)
+					lo += s
+				}
+			}
+			if ok {
+				c13CompareFinal(r, "E"+suffix, ref, env)
+				// E': Restore of a snapshot whose index equals the current applied
+				// index must be a no-op in effect.
+				cur, serr := env.snapshot()
+				d0, _ := env.durable()
+				if serr == nil && d0 != 0 {
+					var rerr error
+					if !r.Guard("Restore-same-index", d0, func() {
+						rerr = env.sm.Restore(c13Ctx, multiraft.Snapshot{Index: d0, Term: ref.entries[n-1].Term, Data: append([]byte(nil), cur...)})
+					}) {
+						r.Eval(1)
+						r.Count("restores_same_index", 1)
+						after, _ := env.snapshot()
+						d1, _ := env.durable()
+						if rerr != nil || !bytes.Equal(after, cur) || d1 != d0 {
+							r.Violation("restore-at-current-index-not-a-noop"+suffix, map[string]any{"case": i, "err": fmt.Sprint(rerr), "durable_before": d0, "durable_after": d1, "bytes_equal": bytes.Equal(after, cur)})
+						} else {
+							c13CompareFinal(r, "E'"+suffix, ref, env)
+						}
+					}
+				}
+			}
+			env.close()
+			note(hot, fmt.Sprintf("restore-in-place@%d<%d:", k, dpos)+c13Shape(shape))
 		}
 
 		// ---- H: hard-error command heading a batch --------------------------------
